@@ -17,8 +17,8 @@ func init() {
 	register(&Property{
 		ID:      "C07",
 		Engines: []string{"cfg"},
-		Explanation: "Agreement with net/http is a differential property over generated messages and has no static oracle as a whole; four clauses are table / decision agreement between the two implementations and are decided against net/http's source as loaded for this build (never linked or run): the token alphabets of nbhttp and the WebSocket handshake parser equal httpguts.isTokenTable on all 256 bytes (O1); chunk sizes are parsed with radix 16 and Content-Length with radix 10, both with bit size <= 63 (O2); chunked framing removes Content-Length, trailers are parsed only when chunked, and the trailer names Transfer-Encoding / Trailer / Content-Length are rejected (O3); the connection-persistence decision of ServerProcessor.OnComplete equals net/http's shouldClose: major<1 -> close; 1.0 -> hasClose || !keepAlive; else hasClose (O4).",
-		NotCovered: "everything else in the statement: header multimap, body bytes, trailer values (reading shows the trailer-value state cuts a value at its first space, which no rule here decides), message boundaries",
+		Explanation: "Agreement with net/http is a differential property over generated messages and has no static oracle as a whole; six clauses are table / decision / sibling agreement and are decided against net/http's source as loaded for this build (never linked or run): the token alphabets of nbhttp and the WebSocket handshake parser equal httpguts.isTokenTable on all 256 bytes (O1); chunk sizes are parsed with radix 16 and Content-Length with radix 10, both with bit size <= 63 (O2); chunked framing removes Content-Length, trailers are parsed only when chunked, and the trailer names Transfer-Encoding / Trailer / Content-Length are rejected (O3); the connection-persistence decision of ServerProcessor.OnComplete equals net/http's shouldClose: major<1 -> close; 1.0 -> hasClose || !keepAlive; else hasClose (O4); every header / trailer value is captured on the CR edge only, so the four value states agree with net/http's line-end extent (O5); both trailer value states check the delivered name off the declared set (O6).",
+		NotCovered: "everything else in the statement: header multimap, body bytes, optional whitespace around values (excluded by the property), message boundaries",
 		Run:        runC07,
 	})
 }
@@ -69,6 +69,8 @@ func runC07(c *Ctx) {
 	c.Rule("C07.O1", "E9", "nbhttp.tokenCharMap and websocket.isTokenOctet equal httpguts.isTokenTable on all 256 byte values", 2)
 	c.Rule("C07.O2", "E9", "chunk size: ParseInt(_, 16, <=63); Content-Length: ParseInt(_, 10, <=63)", 2)
 	c.Rule("C07.O3", "E4", "chunked=true implies delete(Content-Length); parseTrailer returns at once unless chunked; trailer names Transfer-Encoding, Trailer, Content-Length are rejected in both the single and the comma-separated form", 3)
+	c.Rule("C07.O5", "E4,E7", "every capture of a header or trailer value (store of string(data[start:i]) to Parser.headerValue) is on the c == CR edge: the four value states agree with net/http's line-end extent", 1)
+	c.Rule("C07.O6", "E7", "both trailer value states check the delivered name off the declared set before OnTrailerHeader", 1)
 	c.Rule("C07.O4", "E8", "request.Close: major<1 -> true; 1.0 -> hasClose || !keepAlive; else hasClose, with hasClose / keepAlive set by the Connection values \"close\" / \"keep-alive\"", 1)
 
 	// ------------------------------------------------------------------ O1
@@ -222,6 +224,65 @@ func runC07(c *Ctx) {
 	// ------------------------------------------------------------------ O4
 	if oc := c.Fn("C07.O4", "(*nbhttp.ServerProcessor).OnComplete"); oc != nil {
 		c07ShouldClose(c, oc)
+	}
+
+	// ------------------------------------------------------------------ O5, O6
+	if parse := c.Fn("C07.O5", "(*nbhttp.Parser).Parse"); parse != nil {
+		fi := c.P.Info(parse)
+		isCR := func(ft ir.Fact) bool {
+			b, ok := ft.Cond.(*ssa.BinOp)
+			if !ok || b.Op != token.EQL || !ft.Truth {
+				return false
+			}
+			k, isK := ir.ConstInt(b.Y)
+			return isK && k == '\r' && b.X.Type().String() == "byte"
+		}
+		n := 0
+		bad := ""
+		for _, b := range parse.Blocks {
+			for _, in := range b.Instrs {
+				st, ok := in.(*ssa.Store)
+				if !ok {
+					continue
+				}
+				fa, ok := st.Addr.(*ssa.FieldAddr)
+				if !ok || c.P.FieldKey(fa) != "nbhttp.Parser.headerValue" {
+					continue
+				}
+				if _, isConst := st.Val.(*ssa.Const); isConst {
+					continue
+				}
+				n++
+				if !fi.HasFact(st, isCR) {
+					bad = "a header / trailer value is cut at " + c.Pos(st) + " on a byte other than CR: net/http takes the field value up to the line end (inner spaces belong to the value)"
+				}
+			}
+		}
+		if n < 4 && bad == "" {
+			bad = fmt.Sprintf("expected the value capture in the four value states, found %d", n)
+		}
+		c.Cond(bad == "", "C07.O5", fnKey(c.P, parse, "field value ends at CR only"), c.FnPos(parse), fmt.Sprintf("%d captures, all on the c == CR edge", n), bad)
+
+		n = 0
+		bad = ""
+		for _, cs := range c.P.CallsNamed(parse, "invoke:nbhttp.Processor.OnTrailerHeader") {
+			n++
+			ok := false
+			for _, d := range c.P.CallsNamed(parse, "builtin:delete") {
+				if a, isLoad := ir.IsLoad(ir.Resolve(d.Common.Args[0])); isLoad {
+					if fa, isFA := a.(*ssa.FieldAddr); isFA && c.P.FieldKey(fa) == "nbhttp.Parser.trailer" && fi.Dominates(d.In, cs.In) {
+						ok = true
+					}
+				}
+			}
+			if !ok {
+				bad = "the trailer line delivered at " + c.Pos(cs.In) + " is not checked off the declared set (delete(p.trailer, key)): a declared trailer that arrives this way makes the message fail with ErrTrailerExpected although net/http accepts it"
+			}
+		}
+		if n < 2 && bad == "" {
+			bad = fmt.Sprintf("expected OnTrailerHeader in both trailer value states, found %d", n)
+		}
+		c.Cond(bad == "", "C07.O6", fnKey(c.P, parse, "every delivered trailer is checked off"), c.FnPos(parse), fmt.Sprintf("%d delivery sites dominated by delete(p.trailer, key)", n), bad)
 	}
 }
 
